@@ -1,5 +1,253 @@
-import EvoModel.Model.ResultMerge
+/-
+C13 — merging and tabulating results averages or concatenates exactly as documented.
+Property theorems about `Evo.ResultMerge` (model of `evo/core/result.py: merge_results` after
+fix c19f14b, of `pandas_bridge.result_to_df / load_results_as_dataframe` and of the statistics
+table of `evo_res`), and the kernel-checked counterexample (F10) for the pinned strategy.
+Helper lemmas: `Lemmas/ResultMerge.lean`.
+
+"No input result is modified": the model is purely functional, the inputs are values — this
+clause is a frame condition of the implementation and is checked by bitwise snapshots and
+object identity on every correspondence case, not proved.
+-/
+import EvoModel.Lemmas.ResultMerge
 namespace Evo.C13
 open Evo Evo.ResultMerge
+
+/-- **merging a single result returns it unchanged** -/
 theorem merge_single_identity (r : Res) : mergeResults [r] = .ok r := rfl
+
+/-- nothing to merge is refused -/
+theorem merge_refuses_empty : mergeResults [] = .error .noResults := rfl
+
+/-- what `mergeResults` does on two or more results -/
+theorem merge_eq (first second : Res) (rest : List Res) :
+    mergeResults (first :: second :: rest) =
+      if keysOk (first :: second :: rest) then
+        .ok (combine (average (first :: second :: rest)) first (second :: rest))
+      else .error .keyMismatch := by
+  simp only [mergeResults]
+  cases keysOk (first :: second :: rest) <;> simp
+
+/-- **results with different statistic or array keys are refused** — whichever two of the
+inputs differ, wherever they are in the list -/
+theorem merge_refuses_key_mismatch (rs : List Res) (h2 : 2 ≤ rs.length) (x y : Res) (hx : x ∈ rs)
+    (hy : y ∈ rs) (hne : ¬ SameKeys x y) : mergeResults rs = .error .keyMismatch := by
+  match rs, h2 with
+  | first :: second :: rest, _ =>
+    rw [merge_eq]
+    have : keysOk (first :: second :: rest) = false := by
+      cases hk : keysOk (first :: second :: rest) with
+      | false => rfl
+      | true => exact absurd ((keysOk_iff _).mp hk x hx y hy) hne
+    simp [this]
+
+/-- **results with equal key sets are merged** (never refused) -/
+theorem merge_accepts_equal_keys (rs : List Res) (hne : rs ≠ []) (h : ∀ x ∈ rs, ∀ y ∈ rs, SameKeys x y) :
+    ∃ m, mergeResults rs = .ok m := by
+  match rs, hne with
+  | [r], _ => exact ⟨r, rfl⟩
+  | first :: second :: rest, _ =>
+    rw [merge_eq, (keysOk_iff _).mpr h]
+    exact ⟨_, rfl⟩
+
+/-- a merge of two or more results that succeeds: keys agree, the result is `combine` -/
+theorem merge_ok_inv (first second : Res) (rest : List Res) (m : Res)
+    (h : mergeResults (first :: second :: rest) = .ok m) :
+    (∀ x ∈ first :: second :: rest, ∀ y ∈ first :: second :: rest, SameKeys x y) ∧
+    m = combine (average (first :: second :: rest)) first (second :: rest) := by
+  rw [merge_eq] at h
+  cases hk : keysOk (first :: second :: rest) with
+  | false => simp [hk] at h
+  | true =>
+    simp only [hk, if_true, Except.ok.injEq] at h
+    exact ⟨(keysOk_iff _).mp hk, h.symm⟩
+
+/-- **the info of the first result is kept** -/
+theorem merge_info_of_first (first : Res) (rest : List Res) (m : Res)
+    (h : mergeResults (first :: rest) = .ok m) : m.info = first.info := by
+  cases rest with
+  | nil => simp only [mergeResults, Except.ok.injEq] at h; rw [← h]
+  | cons second rest =>
+    rw [(merge_ok_inv first second rest m h).2]
+    rfl
+
+/-- **every statistic of the merged result is the arithmetic mean of the N input values**,
+under the keys (and in the key order) of the first result -/
+theorem merge_stats_mean (first second : Res) (rest : List Res) (m : Res)
+    (h : mergeResults (first :: second :: rest) = .ok m) :
+    keys m.stats = keys first.stats ∧
+    ∀ k ∈ keys first.stats,
+      lookup m.stats k = some (((first :: second :: rest).map fun r => stat r k).sum
+                                / (((first :: second :: rest).length : Nat) : Rat)) ∧
+      ∀ r ∈ first :: second :: rest, (lookup r.stats k).isSome := by
+  obtain ⟨hkeys, rfl⟩ := merge_ok_inv first second rest m h
+  rw [combine_stats]
+  constructor
+  · exact keys_map_val _ _
+  · intro k hk
+    constructor
+    · rw [lookup_map_val]
+      obtain ⟨v, hv⟩ := Option.isSome_iff_exists.mp ((lookup_isSome_iff first.stats k).mpr hk)
+      simp only [hv, Option.map_some, Option.some.injEq, List.map_cons, List.sum_cons, List.length_cons]
+      simp [stat, hv]
+    · intro r hr
+      rw [lookup_isSome_iff]
+      exact ((hkeys r hr first (by simp)).1 k).mpr hk
+
+/-- **arrays are averaged element-wise when all inputs have equal array lengths** (per key,
+independent of the order in which each result lists its arrays) -/
+theorem merge_average_when_equal_lengths (first second : Res) (rest : List Res) (m : Res)
+    (h : mergeResults (first :: second :: rest) = .ok m)
+    (hlen : ∀ r ∈ second :: rest, ∀ k ∈ keys first.arrays, (arr r k).length = (arr first k).length) :
+    keys m.arrays = keys first.arrays ∧
+    ∀ k ∈ keys first.arrays,
+      (arr m k).length = (arr first k).length ∧
+      ∀ i, i < (arr first k).length →
+        (arr m k).getD i 0 = ((first :: second :: rest).map fun r => (arr r k).getD i 0).sum
+                              / (((first :: second :: rest).length : Nat) : Rat) := by
+  obtain ⟨_, rfl⟩ := merge_ok_inv first second rest m h
+  have havg : average (first :: second :: rest) = true := (average_iff first (second :: rest)).mpr hlen
+  rw [havg]
+  constructor
+  · rw [combine_arrays_avg]; exact keys_map_val _ _
+  · intro k hk
+    obtain ⟨a, ha⟩ := Option.isSome_iff_exists.mp ((lookup_isSome_iff first.arrays k).mpr hk)
+    have hfirst : arr first k = a := by simp [arr, ha]
+    have hbs : ∀ b ∈ (second :: rest).map (fun r => arr r k), b.length = a.length := by
+      intro b hb
+      obtain ⟨r, hr, rfl⟩ := List.mem_map.mp hb
+      rw [← hfirst]; exact hlen r hr k hk
+    have harr : arr (combine true first (second :: rest)) k
+        = (addAll a ((second :: rest).map fun r => arr r k)).map fun x => x / (((second :: rest).length + 1 : Nat) : Rat) := by
+      unfold arr
+      rw [combine_arrays_avg, lookup_map_val, ha]
+      rfl
+    rw [harr, hfirst]
+    constructor
+    · rw [List.length_map, addAll_length a _ hbs]
+    · intro i _
+      rw [getD_map_div, addAll_getD a _ hbs]
+      simp only [List.map_map, List.map_cons, List.sum_cons, List.length_cons, hfirst, Function.comp_def]
+
+/-- **otherwise the arrays are concatenated in input order** -/
+theorem merge_concat_otherwise_in_order (first second : Res) (rest : List Res) (m : Res)
+    (h : mergeResults (first :: second :: rest) = .ok m)
+    (hlen : ¬ ∀ r ∈ second :: rest, ∀ k ∈ keys first.arrays, (arr r k).length = (arr first k).length) :
+    keys m.arrays = keys first.arrays ∧
+    ∀ k ∈ keys first.arrays, arr m k = ((first :: second :: rest).map fun r => arr r k).flatten := by
+  obtain ⟨_, rfl⟩ := merge_ok_inv first second rest m h
+  have havg : average (first :: second :: rest) = false := by
+    cases ha : average (first :: second :: rest) with
+    | false => rfl
+    | true => exact absurd ((average_iff first (second :: rest)).mp ha) hlen
+  rw [havg]
+  constructor
+  · rw [combine_arrays_append]; exact keys_map_val _ _
+  · intro k hk
+    obtain ⟨a, ha⟩ := Option.isSome_iff_exists.mp ((lookup_isSome_iff first.arrays k).mpr hk)
+    have hfirst : arr first k = a := by simp [arr, ha]
+    unfold arr
+    rw [combine_arrays_append, lookup_map_val, ha]
+    simp only [Option.map_some, Option.getD_some, List.map_cons, List.flatten_cons]
+    have : (lookup first.arrays k).getD [] = a := by rw [ha]; rfl
+    simp only [arr] at hfirst ⊢
+    rw [this]
+
+/-- the strategy depends only on the per-key lengths: **insertion order of the arrays in the
+individual results does not matter** (this is what fix c19f14b repaired) -/
+theorem merge_strategy_is_per_key (first : Res) (rest : List Res) :
+    average (first :: rest) = true ↔
+      ∀ r ∈ rest, ∀ k ∈ keys first.arrays, (arr r k).length = (arr first k).length :=
+  average_iff first rest
+
+def f10a : Res := ⟨[], [("rmse", 1)], [("a", [1, 2]), ("b", [1, 2, 3])]⟩
+def f10b : Res := ⟨[], [("rmse", 3)], [("b", [3, 2, 1]), ("a", [3, 4])]⟩
+def f10c : Res := ⟨[], [("rmse", 3)], [("a", [3, 2, 1]), ("b", [3, 4])]⟩
+
+/-- **F10, the pinned code**: two results holding the same arrays with equal per-key lengths,
+listed in a different order (`f10a`, `f10b`), were concatenated instead of averaged; with
+unequal per-key lengths but the same size lists (`f10a`, `f10c`) numpy refused to add them.
+The repaired model averages / concatenates. -/
+theorem merge_strategy_counterexample :
+    mergeResultsOld [f10a, f10b] = .ok ⟨[], [("rmse", 2)], [("a", [1, 2, 3, 4]), ("b", [1, 2, 3, 3, 2, 1])]⟩ ∧
+    mergeResults [f10a, f10b] = .ok ⟨[], [("rmse", 2)], [("a", [2, 3]), ("b", [2, 2, 2])]⟩ ∧
+    mergeResultsOld [f10a, f10c] = .error .broadcast ∧
+    mergeResults [f10a, f10c] = .ok ⟨[], [("rmse", 2)], [("a", [1, 2, 3, 2, 1]), ("b", [1, 2, 3, 3, 4])]⟩ := by
+  decide +kernel
+
+/-! ## the table of `evo_res` -/
+
+/-- the label of a result: the given file name, else the base name of `est_name` -/
+theorem label_is_filename_or_estimate_basename (r : Res) :
+    (∀ f, labelOf (some f) r = f) ∧
+    (∀ e, lookup r.info "est_name" = some e → labelOf none r = basename e) ∧
+    (lookup r.info "est_name" = none → labelOf none r = "unnamed_result") := by
+  refine ⟨fun _ => rfl, fun e he => ?_, fun he => ?_⟩ <;> simp [labelOf, he]
+
+/-- the base name has no `/`, and the estimate name is `prefix ++ base name` with the prefix
+empty or ending in `/` (`os.path.basename`) -/
+theorem basename_spec (l : List Char) :
+    '/' ∉ lastSeg l ∧ ∃ pre, l = pre ++ lastSeg l ∧ (pre = [] ∨ ∃ p, pre = p ++ ['/']) :=
+  lastSeg_spec l
+
+/-- **the table contains, for every input result file, exactly the statistics stored in that
+file under that result's label**, in command-line order, and the labels are distinct -/
+theorem table_rows_are_file_stats (files : List (String × Res)) (uf : Bool) (t : Table)
+    (h : resultTable files uf false = .ok t) :
+    t = files.map (fun p => (labelOf (if uf then some p.1 else none) p.2, p.2.stats)) ∧
+    (t.map Prod.fst).Nodup ∧ t.length = files.length := by
+  simp only [resultTable, Bool.false_eq_true, if_false] at h
+  split at h
+  · cases h
+  · next hd =>
+    simp only [Except.ok.injEq] at h
+    subst h
+    refine ⟨rfl, ?_, by simp [rowsOf]⟩
+    exact (hasDup_iff _).mp (by simpa using hd)
+
+/-- duplicate labels are refused (evo_res exits with an error) -/
+theorem table_refuses_duplicate_labels (files : List (String × Res)) (uf : Bool)
+    (h : ¬ ((rowsOf files uf).map Prod.fst).Nodup) :
+    resultTable files uf false = .error .duplicateLabels := by
+  simp only [resultTable, Bool.false_eq_true, if_false]
+  split
+  · rfl
+  · next hd =>
+    exact absurd ((hasDup_iff _).mp (by simpa using hd)) h
+
+/-- **with the merge option the table holds the merged values**: one row, labelled like the
+first result, with the statistics of `mergeResults` -/
+theorem table_merge_row (files : List (String × Res)) (uf : Bool) (t : Table)
+    (h : resultTable files uf true = .ok t) :
+    ∃ m, mergeResults (files.map Prod.snd) = .ok m ∧ t = [(labelOf none m, m.stats)] ∧
+      ∀ f rest, files = f :: rest → labelOf none m = labelOf none f.2 := by
+  simp only [resultTable, if_true] at h
+  cases hm : mergeResults (files.map Prod.snd) with
+  | error e => simp [hm] at h
+  | ok m =>
+    simp only [hm, Except.ok.injEq] at h
+    refine ⟨m, rfl, h.symm, ?_⟩
+    intro f rest hf
+    subst hf
+    have := merge_info_of_first f.2 (rest.map Prod.snd) m (by simpa using hm)
+    simp [labelOf, this]
+
+/-! ## non-vacuity -/
+
+example : mergeResults [⟨[("est_name", "x/a")], [("rmse", 1), ("max", 4)], [("e", [1, 2])]⟩,
+                        ⟨[("est_name", "b")], [("max", 2), ("rmse", 2)], [("e", [3, 6])]⟩,
+                        ⟨[("est_name", "c")], [("rmse", 6), ("max", 0)], [("e", [5, 1])]⟩]
+    = .ok ⟨[("est_name", "x/a")], [("rmse", 3), ("max", 2)], [("e", [3, 3])]⟩ := by decide +kernel
+example : mergeResults [⟨[], [("rmse", 1)], [("e", [1, 2])]⟩, ⟨[], [("rmse", 2)], [("e", [3])]⟩,
+                        ⟨[], [("rmse", 6)], [("e", [])]⟩]
+    = .ok ⟨[], [("rmse", 3)], [("e", [1, 2, 3])]⟩ := by decide +kernel
+example : mergeResults [⟨[], [("rmse", 1)], []⟩, ⟨[], [("mean", 2)], []⟩] = .error .keyMismatch := by decide +kernel
+example : ¬ SameKeys ⟨[], [("rmse", 1)], []⟩ ⟨[], [("mean", 2)], []⟩ := by
+  intro h; have := (h.1 "rmse").mp (by decide); revert this; decide
+example : lastSeg ['r', 'u', 'n', 's', '/', '1', '/', 'a', '.', 't'] = ['a', '.', 't'] := by decide
+example : resultTable [("f1.zip", ⟨[], [("rmse", 1)], []⟩), ("f2.zip", ⟨[], [("rmse", 2)], []⟩)] true false
+    = .ok [("f1.zip", [("rmse", 1)]), ("f2.zip", [("rmse", 2)])] := by decide +kernel
+example : resultTable [("f1.zip", ⟨[], [("rmse", 1)], []⟩), ("f2.zip", ⟨[], [("rmse", 2)], []⟩)] false false
+    = .error .duplicateLabels := by decide +kernel
+
 end Evo.C13
